@@ -157,7 +157,9 @@ def marshal(
                     # all bytes were depleted
                     return obj
             except ConstraintViolatedError as error:
-                bytes_remaining = bytes(itertools.chain((byte,), buffer_iter))
+                # byte is the look-ahead byte, unless the buffer is depleted (then it was already consumed)
+                look_ahead = () if buffer_depleted else (byte,)
+                bytes_remaining = bytes(itertools.chain(look_ahead, buffer_iter))
                 error.set_bytes_remaining(bytes_remaining)
                 raise error
 
